@@ -22,3 +22,12 @@ package structs
 //@   assumed
 //@   pure
 //@ end
+
+// C02 (A AND B = intersection, A OR B = union): see
+// /verif/bounded/structs/joinrequest_test.go.  BOUNDED stand-in, never counted
+// as proved: the function iterates Go maps and the contract language has no
+// "every key was visited" rule for map ranges.
+//@ func (*SegmentSearchRequest).JoinRequest
+//@   props C02
+//@   bounded structs/joinrequest_test.go Test_Bounded_JoinRequest blocks {0,1}, columns {a,b}, every pair of requests (25 x 25) and both operators (1250 inputs): blocks = intersection (AND) / union (OR), per block the union of the columns that passed the micro-index check
+//@ end
